@@ -174,6 +174,15 @@ func driveC13(toks []string) string {
 			return "err"
 		}
 		return outcome13(desc13("ttu", 0).Function([]octosql.Value{t}))
+	case "rtf":
+		// time_to_unix(time_from_unix(float64(x) + q/4)) through the Float overload; exact for |x| < 2^51
+		x, r := parse13(toks[1:])
+		q, _ := strconv.Atoi(r[0])
+		t, err := desc13("tfu", 1).Function([]octosql.Value{octosql.NewFloat(float64(x.Int) + float64(q)*0.25)})
+		if err != nil {
+			return "err"
+		}
+		return outcome13(desc13("ttu", 0).Function([]octosql.Value{t}))
 	case "itos":
 		x, _ := parse13(toks[1:])
 		s, err := desc13("string", 0).Function([]octosql.Value{x})
@@ -464,6 +473,13 @@ func genC13(g *Gen, tier string, w *bufio.Writer) {
 	scale := 1
 	if tier == "thorough" {
 		scale = 12
+	}
+	// ---- the Float overload of time_from_unix on exactly representable arguments (x + q/4, |x| < 2^51)
+	for _, x := range []int64{0, 1, -1, 2, -2, 59, 1 << 31, -(1 << 31), 1<<32 - 1, 1 << 32, -(1 << 32), 9223372035, 9223372036, 9223372037,
+		-9223372036, -9223372037, 10000000000, -10000000000, 253402300800, 1 << 40, -(1 << 40), 1 << 50, -(1 << 50)} {
+		for q := 0; q < 4; q++ {
+			fmt.Fprintf(w, "rtf %s %d\n", Enc13(vi(x)), q)
+		}
 	}
 	// ---- exhaustive over the integer edge universe: binary Int / Duration operators, unary ones, conversions
 	for _, a := range i64edge {
